@@ -289,6 +289,15 @@ fn expected(op_text: &str, inverse: bool, roundtrip: bool, input: &[[f64; 4]]) -
     Ok(out)
 }
 
+/// The library's result for the whole input as one set (what kp's batching must not change)
+fn expected_whole(op_text: &str, input: &[[f64; 4]]) -> Option<Vec<[f64; 4]>> {
+    let mut ctx = Plain::new();
+    let op = ctx.op(op_text).ok()?;
+    let mut data: Vec<Coor4D> = input.iter().map(|c| Coor4D(*c)).collect();
+    apply_set(&ctx, op, D::F, &mut data);
+    Some(data.iter().map(|c| c.0).collect())
+}
+
 fn ordinary(h: &H, idx: u64, kp: &std::path::Path, scratch: &std::path::Path, rng: &mut Rng) {
     let (op_text, invertible) = *rng.pick(&OPERATIONS);
     let nlines = *rng.pick(&[1usize, 2, 3, 7, 40, 200]);
@@ -474,7 +483,13 @@ fn batches(h: &H, idx: u64, kp: &std::path::Path, scratch: &std::path::Path, rng
         );
         return;
     }
-    check_output(h, idx, &format!("batch-{nlines}"), &a, &r.stdout, &want, 4, ncols);
+    if !check_output(h, idx, &format!("batch-{nlines}"), &a, &r.stdout, &want, 4, ncols) {
+        return;
+    }
+    // ... and with the library's result for all lines as one set
+    if let Some(whole) = expected_whole(op_text, &tuples) {
+        check_output(h, idx, &format!("batch-{nlines}/whole-set"), &a, &r.stdout, &whole, 4, ncols);
+    }
 }
 
 /// Without -D and -d kp estimates the output dimension and the number of decimals from the input.
